@@ -694,7 +694,9 @@ pub fn c14_scenario(ch: &mut Chooser, thorough: bool) -> Exec {
         // a global maximum below the minimum would make the range negative (Duration underflow panic): skip
         return Exec { outcome: 0, violation: None, features: vec!["skipped-invalid-config"] };
     }
-    let apply_override = |sim: &Sim, glob: &mut (u64, u64), linkcfg: &mut Option<(u64, u64)>| {
+    // an earlier override (always before the run), so that sequences of two settings occur
+    let (pkind, pval): (usize, u64) = *ch.of("earlier_override(none|link fixed 3|link max 6|global max 7)", &[(0usize, 0u64), (1, 3), (2, 6), (3, 7)]);
+    let apply_kind = |sim: &Sim, okind: usize, oval: u64, glob: &mut (u64, u64), linkcfg: &mut Option<(u64, u64)>| {
         let d = Duration::from_millis(oval);
         match okind {
             1 => {
@@ -721,21 +723,23 @@ pub fn c14_scenario(ch: &mut Chooser, thorough: bool) -> Exec {
             _ => {}
         }
     };
+    let apply_override = |sim: &Sim, glob: &mut (u64, u64), linkcfg: &mut Option<(u64, u64)>| apply_kind(sim, okind as usize, oval, glob, linkcfg);
     // configurations whose maximum ends up below their minimum make `max - min` underflow:
     // that is a misconfiguration, not a property subject
-    let would_be = |glob: (u64, u64), linkcfg: Option<(u64, u64)>| -> bool {
-        let mut g = glob;
-        let mut l = linkcfg;
-        match okind {
-            1 => l = Some((oval, oval)),
-            2 => l = Some((l.unwrap_or(g).0, oval)),
-            3 => g.1 = oval,
+    let model_step = |kind: usize, val: u64, g: &mut (u64, u64), l: &mut Option<(u64, u64)>| {
+        match kind {
+            1 => *l = Some((val, val)),
+            2 => *l = Some((l.unwrap_or(*g).0, val)),
+            3 => g.1 = val,
             _ => {}
         }
         g.1 >= g.0 && l.map(|x| x.1 >= x.0).unwrap_or(true)
     };
-    if !would_be(glob, linkcfg) {
-        return Exec { outcome: 1, violation: None, features: vec!["skipped-invalid-config"] };
+    {
+        let (mut g, mut l) = (glob, linkcfg);
+        if !model_step(pkind, pval, &mut g, &mut l) || !model_step(okind as usize, oval, &mut g, &mut l) {
+            return Exec { outcome: 1, violation: None, features: vec!["skipped-invalid-config"] };
+        }
     }
 
     // latency variate answered by the explorer when the range in force is non-empty
@@ -753,7 +757,13 @@ pub fn c14_scenario(ch: &mut Chooser, thorough: bool) -> Exec {
             let (lo, hi) = *rp.borrow();
             let c = if hi > lo {
                 let c = unsafe { &mut *chp };
-                c.choose("latency-variate", n)
+                // full enumeration of the variates for a single setting; deviation-bounded
+                // when two settings are combined (keeps the grid tractable)
+                if pkind != 0 {
+                    c.deviate("latency-variate", n)
+                } else {
+                    c.choose("latency-variate", n)
+                }
             } else {
                 0
             };
@@ -764,6 +774,9 @@ pub fn c14_scenario(ch: &mut Chooser, thorough: bool) -> Exec {
     let mut net = build_with(tick, false, |b| {
         b.min_message_latency(Duration::from_millis(gmin)).max_message_latency(Duration::from_millis(gmax.max(gmin)));
     });
+    if pkind != 0 {
+        apply_kind(&net.sim, pkind, pval, &mut glob, &mut linkcfg);
+    }
     if okind != 0 && owhen == 0 {
         apply_override(&net.sim, &mut glob, &mut linkcfg);
     }
